@@ -6,7 +6,7 @@ import coqfmt as cf
 
 RULE = ("cases = exhaustive (<=4 validation points x <=3 classes: every training class set, validation label vector and "
         "prediction vector for accuracy; every binary validation vector containing both classes x every prediction "
-        "vector for ROC-AUC) + random larger cases (<=12 points, <=5 classes, non-contiguous / negative labels, training "
+        "vector for ROC-AUC; label sets with holes such as {0, 2}) + random larger cases (<=12 points, <=5 classes, non-contiguous / negative labels, training "
         "classes absent from validation, validation labels given as ndarray or Series), the SAME utility object reused "
         "across cases and label arrays edited in place between calls; non-trivial = the prediction is neither all "
         "right nor all wrong; distinct = JSON")
@@ -22,7 +22,7 @@ def gen(rng, tier):
     cases = []
     # exhaustive small universe, accuracy
     for T in (1, 2, 3, 4) if tier != "search" else ():
-        for classes in ([0], [0, 1], [0, 1, 2]):
+        for classes in ([0], [0, 1], [0, 1, 2], [0, 2], [1, 3]):       # incl. label sets with a hole / not starting at 0
             if T == 4 and len(classes) == 3 and tier == "quick":
                 continue
             for yt in itertools.product(classes, repeat=T):
@@ -44,7 +44,7 @@ def gen(rng, tier):
             rng.shuffle(yt)
             yp = [rng.choice([a, b]) for _ in range(T)]
         else:
-            pool = rng.choice([[0, 1, 2, 3, 4], [3, 7, 8, 20, 21], [-5, -1, 0, 4, 9]])[:rng.randint(1, 5)]
+            pool = rng.choice([[0, 1, 2, 3, 4], [3, 7, 8, 20, 21], [-5, -1, 0, 4, 9], [0, 2, 3, 7, 9], [0, 5, 6, 8, 10], [1, 2, 4, 5, 7]])[:rng.randint(1, 5)]
             train = list(pool) + [rng.choice(pool) for _ in range(rng.randint(0, 4))]
             vis = pool[:rng.randint(1, len(pool))]            # some training classes may be absent from validation
             yt = [rng.choice(vis) for _ in range(T)]
